@@ -1,4 +1,6 @@
 import EdpVerif.Lemmas.Rpc
+import EdpVerif.Lemmas.RpcMore
+import EdpVerif.Impl.RpcTerm
 /-!
 # C17 — each remote call gets its own reply; nothing is left behind afterwards
 
@@ -11,7 +13,13 @@ Theorems about the small-step model `Impl/Rpc.lean` of `Node::rpc_call_raw_with_
 * every behaviour of the environment, which is part of the schedule: the peer's messages (`rStart r msg` with an
   arbitrary `msg`: replies in any order, twice, late, to unknown pids, under a foreign node name, never), lookups that
   find no connection, writes that fail, timers that fire at any moment, call futures dropped at any suspension point,
-  other allocations, processes spawned and gone.
+  other allocations, processes spawned and gone, receiver tasks that stop and take their connection out of the table
+  (`rStop r`), `Node::start` giving the allocator another creation at any time (`start c`).
+
+The wrappers (`rpc_call_with_timeout`, `rpc_call`, the `erlang_*` calls) are covered through `wrapOutcome` and the
+term-level model `Impl/RpcTerm.lean`; the last section ties the model to what the translator reads from the source
+(`Generated/Misc.lean`: steps and awaits of `rpc_call_raw_with_timeout`, key text, route arm, wrappers, every use of the
+node's allocator).
 
 `run` skips a step that is not enabled, so "every list of steps" is "every execution".
 `B = MAXP * U32 = 2^52` is the period of the pid allocator (C16).
@@ -164,17 +172,17 @@ theorem C17_call_keys_differ_from_process_pids (a : Sh) (n : Nat) (σ : List Ste
     (hi : ((reach a n σ).callers i).pc ≠ .start) (hoi : ((reach a n σ).callers i).out ≠ some .allocFail) :
     ((reach a n σ).callers i).key ≠ p := by
   have ha := (C17_invariants_hold_on_every_run a n σ).alloc
-  obtain ⟨q, hq1, hq2, hq3⟩ := ha.procs p hp
+  obtain ⟨q, hq1, ⟨y, hy, hy1, hy2⟩, hq3⟩ := ha.procs p hp
   obtain ⟨li, hai⟩ := ha.ix i hi
-  have hai : seqAlloc a ((reach a n σ).callers i).ix = .ok ((reach a n σ).callers i).key := by
+  obtain ⟨x, hx, hx1, hx2⟩ : SameKey (seqAlloc a ((reach a n σ).callers i).ix) ((reach a n σ).callers i).key := by
     rcases hai with h' | h'
     · exact h'
     · exact absurd h' hoi
   have hne := hq3 i hi
   intro hk
   rcases Nat.lt_or_gt_of_ne hne with hlt | hgt
-  · exact Edp.Impl.PidAlloc.seqAlloc_key_ne_any a _ _ hlt (by omega) _ _ hai hq2 (by rw [hk])
-  · exact Edp.Impl.PidAlloc.seqAlloc_key_ne_any a _ _ hgt (by omega) _ _ hq2 hai (by rw [hk])
+  · exact Edp.Impl.PidAlloc.seqAlloc_key_ne_any a _ _ hlt (by omega) _ _ hx hy (by rw [hx1, hx2, hy1, hy2, hk])
+  · exact Edp.Impl.PidAlloc.seqAlloc_key_ne_any a _ _ hgt (by omega) _ _ hy hx (by rw [hx1, hx2, hy1, hy2, hk])
 
 example : (reach a0 0 (.spawnProc :: reqSteps 0)).procs = [⟨1, 0, 8⟩] ∧
     ((reach a0 0 (.spawnProc :: reqSteps 0)).callers 0).key = ⟨2, 0, 8⟩ := by decide
@@ -379,6 +387,327 @@ theorem C17_reply_is_delivered (a : Sh) (n : Nat) (σ : List Step) (i r : Nat) (
 example : ((reach a0 0 (reqSteps 0)).callers 0).pc = .waiting ∧
     (((reach a0 0 (reqSteps 0)).callers 0).key, 0) ∈ (reach a0 0 (reqSteps 0)).pending ∧
     (reach a0 0 (reqSteps 0)).recv 0 = .idle := by decide
+
+/-! ## the connection goes away while calls are outstanding -/
+
+/-- When the receiver task of a connection stops (`receive_message_from_read_half` failed: the peer closed, a read
+error, the tick time passed) it takes the connection out of the table for good: the receiver takes no further step,
+hands no further message to anybody, and no later call finds that connection (`lookup` with that id is not enabled;
+such a call returns `NodeNotConnected`). -/
+theorem C17_stopped_connection_is_never_found_again (a : Sh) (n : Nat) (σ τ : List Step) (r : Nat)
+    (h : (reach a n σ).recv r = .stopped) :
+    (reach a n (σ ++ τ)).recv r = .stopped ∧ (reach a n (σ ++ τ)).conns r = false ∧
+      (∀ i, step (reach a n (σ ++ τ)) (.lookup i (some r)) = none) ∧
+      (∀ msg, step (reach a n (σ ++ τ)) (.rStart r msg) = none) ∧
+      step (reach a n (σ ++ τ)) (.rRemove r) = none ∧ step (reach a n (σ ++ τ)) (.rSend r) = none := by
+  have hst : (reach a n (σ ++ τ)).recv r = .stopped := by
+    unfold reach at h ⊢; rw [run_append]; exact stopped_run τ _ r h
+  have hc : (reach a n (σ ++ τ)).conns r = false := ((conn_run (σ ++ τ) (conn_init a n)) r).mpr hst
+  refine ⟨hst, hc, ?_, ?_, ?_, ?_⟩
+  · intro i; simp [step, hc]
+  · intro msg; simp [step, hst]
+  · simp [step, hst]
+  · simp [step, hst]
+
+example : (reach a0 0 (reqSteps 0 ++ [.rStop 0])).recv 0 = .stopped ∧
+    ((reach a0 0 (reqSteps 0 ++ [.rStop 0, .begin 1, .insert 1, .lookup 1 (some 0)])).callers 1).pc = .inserted ∧
+    ((reach a0 0 (reqSteps 0 ++ [.rStop 0, .begin 1, .insert 1, .lookup 1 none, .finish 1])).callers 1).out = some .noConn := by
+  decide
+
+/-- What happens to the calls that are outstanding when their connection goes away: nothing tells them. A call that
+waits for its reply, with nothing addressed to its key in flight (no receiver routing such a message or holding its
+sender, its channel empty), and to whose key no message is handed to a receiver from now on — because the receiver of
+its connection stopped, or because the peer never answers — never returns a reply, a connection error or
+`RpcCancelled`: it stays waiting, with its entry, until ITS OWN timer fires or its owner drops it. (While the
+allocator has not gone round.) So outstanding calls of a lost connection end by their timeout (`DEFAULT_RPC_TIMEOUT`
+for `rpc_call`), not promptly. -/
+theorem C17_unanswered_call_waits_for_its_timeout (a : Sh) (n : Nat) (σ τ : List Step) (i : Nat)
+    (hb : (reach a n (σ ++ τ)).nalloc ≤ MAXP * U32)
+    (hw : ((reach a n σ).callers i).pc = .waiting) (hval : ((reach a n σ).callers i).val = none)
+    (hroute : ∀ r msg m, (reach a n σ).recv r = .routing msg m → msg.pid ≠ ((reach a n σ).callers i).key)
+    (hhold : ∀ r m b, (reach a n σ).recv r ≠ .holding i m b)
+    (hτ : ∀ r msg, Step.rStart r msg ∈ τ → msg.pid ≠ ((reach a n σ).callers i).key) :
+    let c := (reach a n (σ ++ τ)).callers i
+    (c.pc = .waiting ∧ c.val = none ∧ c.out = none) ∨ (c.pc = .timedOut ∧ c.out = none) ∨
+      (c.pc = .exiting .timeout ∧ c.out = none) ∨
+      (c.pc = .done ∧ (c.out = some .timeout ∨ c.out = some .dropped)) := by
+  intro c
+  have hv := C17_invariants_hold_on_every_run a n σ
+  have hv' := C17_invariants_hold_on_every_run a n (σ ++ τ)
+  have hrun : reach a n (σ ++ τ) = run (reach a n σ) τ := by unfold reach; rw [run_append]
+  have hbσ : (reach a n σ).nalloc ≤ MAXP * U32 := by
+    rw [hrun] at hb; exact Nat.le_trans (nalloc_run τ _) hb
+  have ht := tx_run σ (inv_init a n) (tx_init a n) hbσ
+  have hu : Unans (reach a n σ) i := ⟨hroute, hhold, Or.inl ⟨hw, hval⟩⟩
+  have hu' := unans_run τ hv ht (by rw [← hrun]; exact hb) i hu hτ
+  rw [← hrun] at hu'
+  have hd := hv'.done i
+  rcases hu'.pcs with ⟨h1, h2⟩ | h1 | h1 | ⟨h1, h2⟩
+  · left; refine ⟨h1, h2, ?_⟩
+    cases ho : ((reach a n (σ ++ τ)).callers i).out with
+    | none => rfl
+    | some o => have := hd.mpr (by rw [ho]; simp); rw [h1] at this; cases this
+  · right; left; refine ⟨h1, ?_⟩
+    cases ho : ((reach a n (σ ++ τ)).callers i).out with
+    | none => rfl
+    | some o => have := hd.mpr (by rw [ho]; simp); rw [h1] at this; cases this
+  · right; right; left; refine ⟨h1, ?_⟩
+    cases ho : ((reach a n (σ ++ τ)).callers i).out with
+    | none => rfl
+    | some o => have := hd.mpr (by rw [ho]; simp); rw [h1] at this; cases this
+  · right; right; right; exact ⟨h1, h2⟩
+
+/-- the receiver stops while call 0 waits: the call is still waiting with its entry afterwards, and ends by its timer -/
+example : (reach a0 0 (reqSteps 0)).recv = (fun _ => .idle) ∧ ((reach a0 0 (reqSteps 0)).callers 0).val = none ∧
+    ((reach a0 0 (reqSteps 0 ++ [.rStop 0])).callers 0).pc = .waiting ∧
+    (reach a0 0 (reqSteps 0 ++ [.rStop 0])).pending = [(⟨1, 0, 8⟩, 0)] ∧
+    ((reach a0 0 (reqSteps 0 ++ [.rStop 0, .timeout 0, .timeoutRemove 0, .finish 0])).callers 0).out = some .timeout ∧
+    (reach a0 0 (reqSteps 0 ++ [.rStop 0, .timeout 0, .timeoutRemove 0, .finish 0])).pending = [] :=
+  ⟨rfl, by decide, by decide, by decide, by decide, by decide⟩
+
+/-- once every call is over no connection mutex is held either -/
+theorem C17_no_mutex_held_at_quiescence (a : Sh) (n : Nat) (σ : List Step) (h : (reach a n σ).quiescent) (c : Nat) :
+    (reach a n σ).lock c = none := by
+  cases hl : (reach a n σ).lock c with
+  | none => rfl
+  | some i =>
+    have := ((C17_invariants_hold_on_every_run a n σ).lock.held c i hl).1
+    rcases h i with h | h <;> rw [h] at this <;> simp [Pc.holdsLock] at this
+
+example : (reach a0 0 dropRun).lock 0 = none ∧ (reach a0 0 [.begin 0, .insert 0, .lookup 0 (some 0), .lock 0]).lock 0 = some 0 := by
+  decide
+
+/-! ## the wrappers: `rpc_call_with_timeout`, `rpc_call`, the `erlang_*` calls -/
+
+/-- The wrapper's result is a function of the raw call's own outcome: a value it returns is the unwrapped body of a
+message that was addressed to this call's reply pid; an error of the raw call is passed on unchanged; a reply of the
+wrong shape becomes a conversion error of THIS call. The wrapper touches no shared state, so everything above holds for
+wrapped calls as it stands. `unwrap` is any function on bodies (it stands for `into_rex_response`). -/
+theorem C17_wrapped_reply_is_own (unwrap : Nat → Option Nat) (a : Sh) (n : Nat) (σ : List Step) (i : Nat) (o : Outcome)
+    (ho : ((reach a n σ).callers i).out = some o) :
+    (∀ m v, wrapOutcome unwrap o = .value m v →
+      ∃ msg, (reach a n σ).inbox[m]? = some msg ∧ msg.pid = ((reach a n σ).callers i).key ∧ unwrap msg.body = some v) ∧
+    (∀ m, wrapOutcome unwrap o = .badShape m →
+      ∃ msg, (reach a n σ).inbox[m]? = some msg ∧ msg.pid = ((reach a n σ).callers i).key ∧ unwrap msg.body = none) ∧
+    (∀ e, wrapOutcome unwrap o = .err e → e = o ∧ ∀ m b, o ≠ .reply m b) := by
+  refine ⟨?_, ?_, ?_⟩
+  · intro m v hw
+    cases o <;> simp only [wrapOutcome] at hw <;> try cases hw
+    rename_i m' b
+    split at hw <;> cases hw
+    rename_i hu
+    obtain ⟨msg, h1, h2, h3⟩ := C17_no_misdelivery a n σ i m b ho
+    exact ⟨msg, h1, h2, by rw [h3]; exact hu⟩
+  · intro m hw
+    cases o <;> simp only [wrapOutcome] at hw <;> try cases hw
+    rename_i m' b
+    split at hw <;> cases hw
+    rename_i hu
+    obtain ⟨msg, h1, h2, h3⟩ := C17_no_misdelivery a n σ i m b ho
+    exact ⟨msg, h1, h2, by rw [h3]; exact hu⟩
+  · intro e hw
+    cases o <;> simp only [wrapOutcome] at hw <;> (try (split at hw <;> cases hw)) <;> (try cases hw) <;> simp
+
+example : wrapOutcome (fun b => if b = 7 then some 70 else none) (.reply 0 7) = .value 0 70 ∧
+    wrapOutcome (fun b => if b = 7 then some 70 else none) (.reply 0 8) = .badShape 0 ∧
+    wrapOutcome (fun _ => none) .timeout = .err .timeout := by decide
+
+/-- a wrapped value is returned to one caller only (while the allocator has not gone round) -/
+theorem C17_wrapped_value_returned_to_one_caller (unwrap : Nat → Option Nat) (a : Sh) (n : Nat) (σ : List Step)
+    (i j m v v' : Nat) (oi oj : Outcome) (hb : (reach a n σ).nalloc ≤ MAXP * U32)
+    (hi : ((reach a n σ).callers i).out = some oi) (hj : ((reach a n σ).callers j).out = some oj)
+    (hwi : wrapOutcome unwrap oi = .value m v) (hwj : wrapOutcome unwrap oj = .value m v') : i = j := by
+  cases oi <;> simp only [wrapOutcome] at hwi <;> try cases hwi
+  cases oj <;> simp only [wrapOutcome] at hwj <;> try cases hwj
+  split at hwi <;> cases hwi
+  split at hwj <;> cases hwj
+  exact C17_message_returned_to_one_caller a n σ i j m _ _ hb hi hj
+
+example : ((reach a0 0 good).callers 0).out = some (.reply 0 7) ∧ wrapOutcome (fun b => some (b + 1)) (.reply 0 7) = .value 0 8 := by
+  decide
+
+open Edp.Impl.RpcTerm in
+/-- `into_rex_response` (arity, atom and index as read from term.rs) accepts exactly the pairs `{rex, Result}` and
+returns `Result`; everything else — another atom, another arity, a non-tuple, an improper shape — is an error -/
+theorem C17_rex_response_shape (t v : Term) :
+    intoRexResponse t = some v ↔ t = .tuple [.atom (strBytes "rex"), v] := by
+  have hg : Gen.REX_RESPONSE = (2, "rex", 1) := by decide
+  constructor
+  · intro h
+    cases t <;> simp only [intoRexResponse, hg] at h <;> try cases h
+    rename_i l
+    split at h
+    · rename_i hl
+      match l, hl with
+      | [x, y], _ =>
+        simp only [List.head?_cons] at h
+        cases x <;> simp only at h <;> try cases h
+        split at h
+        · rename_i hn
+          simp at h
+          rw [hn, h]
+        · cases h
+    · cases h
+  · intro h
+    subst h
+    simp [intoRexResponse, hg]
+
+open Edp.Impl.RpcTerm in
+example : intoRexResponse (.tuple [.atom (strBytes "rex"), .int 5]) = some (.int 5) ∧
+    intoRexResponse (.tuple [.atom (strBytes "rexx"), .int 5]) = none ∧
+    intoRexResponse (.tuple [.atom (strBytes "rex"), .int 5, .int 6]) = none ∧
+    intoRexResponse (.tuple [.atom (strBytes "rex")]) = none ∧
+    intoRexResponse (.atom (strBytes "rex")) = none ∧
+    intoRexResponse (.tuple [.bin (strBytes "rex"), .int 5]) = none := by
+  refine ⟨?_, ?_, ?_, ?_, ?_, ?_⟩ <;> simp [intoRexResponse, show Gen.REX_RESPONSE = (2, "rex", 1) by decide, strBytes] <;> decide
+
+open Edp.Impl.RpcTerm in
+/-- the request is `{ReplyPid, {call, Module, Function, Args, user}}`, sent to the registered name `rex`: the reply pid
+inside it is the call's own key, so a conforming peer answers to that key -/
+theorem C17_request_is_the_rex_call (reply : PidF) (m f : Bytes) (args : List Term) :
+    callRequest reply m f args =
+      .tuple [.pid reply, .tuple [.atom (strBytes "call"), .atom m, .atom f, .list args, .atom (strBytes "user")]] ∧
+    Gen.RPC_REQUEST_TO = "rex" := by
+  have hg : Gen.RPC_REQUEST_SHAPE = ["atom:call", "atom=module", "atom=function", "list=args", "atom:user"] := by decide
+  refine ⟨?_, by decide⟩
+  simp only [callRequest, hg, List.map]
+  have h1 : shapeElem m f args "atom:call" = .atom (strBytes "call") := by
+    simp only [shapeElem, show ("atom:call" : String).toList = ['a', 't', 'o', 'm', ':', 'c', 'a', 'l', 'l'] by decide]; rfl
+  have h2 : shapeElem m f args "atom=module" = .atom m := by
+    simp [shapeElem, show ("atom=module" : String).toList = ['a', 't', 'o', 'm', '=', 'm', 'o', 'd', 'u', 'l', 'e'] by decide]
+  have h3 : shapeElem m f args "atom=function" = .atom f := by
+    simp [shapeElem, show ("atom=function" : String).toList = ['a', 't', 'o', 'm', '=', 'f', 'u', 'n', 'c', 't', 'i', 'o', 'n'] by decide]
+  have h4 : shapeElem m f args "list=args" = .list args := by
+    simp [shapeElem, show ("list=args" : String).toList = ['l', 'i', 's', 't', '=', 'a', 'r', 'g', 's'] by decide]
+  have h5 : shapeElem m f args "atom:user" = .atom (strBytes "user") := by
+    simp only [shapeElem, show ("atom:user" : String).toList = ['a', 't', 'o', 'm', ':', 'u', 's', 'e', 'r'] by decide]; rfl
+  rw [h1, h2, h3, h4, h5]
+
+open Edp.Impl.RpcTerm in
+example : erlangTarget "erlang_memory" = some (strBytes "erlang", strBytes "memory") := by decide
+
+/-! ## the model and the source -/
+
+/-- The steps of `rpc_call_raw_with_timeout` as the translator lists them from node.rs — allocation, every access to
+`pending_rpcs` and `connections`, every `.await`, every early return, `?` and `expect`, in source order — are the steps
+the model reads the function as (`sourceSteps`). A new await, removal or early return changes the list. -/
+theorem C17_model_steps_are_the_source_steps : Gen.RPC_CALL_STEPS = sourceSteps.map (·.1) := by decide
+
+example : Gen.RPC_CALL_STEPS.length = 22 := by decide
+
+/-- Every `.await` of the source is a program counter at which the model lets the owner drop the future (`drop` is
+enabled there in every state), and every program counter at which `drop` is enabled is an `.await` of the source. -/
+theorem C17_every_await_is_a_drop_point :
+    (∀ t ∈ Gen.RPC_CALL_STEPS, isAwait t = true → ∃ pc, awaitPc t = some pc ∧ pc.suspended = true ∧
+      ∀ (s : St) (i : Nat), (s.callers i).pc = pc → (step s (.drop i)).isSome = true) ∧
+    (∀ pc : Pc, pc.suspended = true → ∃ t ∈ Gen.RPC_CALL_STEPS, isAwait t = true ∧ awaitPc t = some pc) := by
+  have hg : Gen.RPC_CALL_STEPS = sourceSteps.map (·.1) := C17_model_steps_are_the_source_steps
+  constructor
+  · have key : ∀ t ∈ Gen.RPC_CALL_STEPS, isAwait t = true → (awaitPc t).any Pc.suspended = true := by decide
+    intro t ht ha
+    obtain ⟨pc, h1, h2⟩ : ∃ pc, awaitPc t = some pc ∧ pc.suspended = true := by
+      have := key t ht ha
+      cases h : awaitPc t with
+      | none => rw [h] at this; cases this
+      | some pc => rw [h] at this; exact ⟨pc, rfl, this⟩
+    refine ⟨pc, h1, h2, ?_⟩
+    intro s i hpc
+    simp [step, hpc, h2]
+  · intro pc hpc
+    cases pc <;> simp [Pc.suspended] at hpc
+    · exact ⟨"yield:rpc:before_insert", by decide, by decide, rfl⟩
+    · exact ⟨"yield:rpc:after_insert", by decide, by decide, rfl⟩
+    · exact ⟨"await:lock", by decide, by decide, rfl⟩
+    · exact ⟨"await:send_to_name", by decide, by decide, rfl⟩
+    · exact ⟨"yield:rpc:after_send", by decide, by decide, rfl⟩
+    · exact ⟨"await:timeout", by decide, by decide, rfl⟩
+    · exact ⟨"yield:rpc:timed_out", by decide, by decide, rfl⟩
+
+example : (Gen.RPC_CALL_STEPS.filter isAwait).length = 8 := by decide
+
+/-- Both places that build the key of `pending_rpcs` — the caller and `route_message` — use the format string and the
+pid fields the model's `keyChars` stands for; the drop guard removes that key; the `Send`/`SendTt` arm asks the registry
+first and touches the table only at the one `remove`, followed by the `send` into the channel. -/
+theorem C17_key_and_route_arm_as_in_source (p : Pid) :
+    keyCharsFrom Gen.RPC_KEY_FORMAT_CALL p = keyChars p ∧ keyCharsFrom Gen.RPC_KEY_FORMAT_ROUTE p = keyChars p ∧
+    Gen.RPC_GUARD_DROP = ["pending.remove.key"] ∧
+    Gen.ROUTE_SEND_ARM_STEPS = ["payload?", "pid?", "registry.get", "process.send", "else",
+      "yield:route:before_pending_remove", "pending.remove", "sender.send"] ∧
+    Gen.ROUTE_ARMS.head? = some (["Send", "SendTt"], ["to_pid"], "Regular", ["get", "rpc"]) := by
+  have h1 : Gen.RPC_KEY_FORMAT_CALL = ("{}.{}.{}", ["id", "serial", "creation"]) := by decide
+  have h2 : Gen.RPC_KEY_FORMAT_ROUTE = ("{}.{}.{}", ["id", "serial", "creation"]) := by decide
+  refine ⟨by rw [h1]; exact renderFmt_key p, by rw [h2]; exact renderFmt_key p, by decide, by decide, by decide⟩
+
+example : keyCharsFrom Gen.RPC_KEY_FORMAT_CALL ⟨12, 0, 345⟩ = "12.0.345".toList := by decide
+
+open Edp.Impl.RpcTerm in
+/-- The wrappers as read from node.rs and erlang_mod_fns.rs: each awaits exactly one call and nothing else;
+`rpc_call_with_timeout` is the only one that changes the result (`into_rex_response`), `rpc_call` and `rpc_call_raw`
+supply the default timeout of 10 s; the six `erlang_*` functions are `rpc_call`s to module `erlang`. -/
+theorem C17_wrappers_as_in_source :
+    Gen.RPC_WRAPPERS = [("rpc_call", "rpc_call_with_timeout", "DEFAULT_RPC_TIMEOUT", ""),
+      ("rpc_call_with_timeout", "rpc_call_raw_with_timeout", "timeout", "rex"),
+      ("rpc_call_raw", "rpc_call_raw_with_timeout", "DEFAULT_RPC_TIMEOUT", "")] ∧
+    Gen.DEFAULT_RPC_TIMEOUT_MS = 10000 ∧ Gen.REX_RESPONSE = (2, "rex", 1) ∧
+    Gen.ERLANG_MOD_FNS.map (fun e => (e.1, e.2.1, e.2.2.1, e.2.2.2.1, e.2.2.2.2.1)) =
+      [("erlang_system_info", "item", "rpc_call", "erlang", "system_info"),
+       ("erlang_statistics", "item", "rpc_call", "erlang", "statistics"),
+       ("erlang_memory", "", "rpc_call", "erlang", "memory"),
+       ("erlang_processes", "", "rpc_call", "erlang", "processes"),
+       ("erlang_process_info", "pid,items", "rpc_call", "erlang", "process_info"),
+       ("erlang_list_to_pid", "pid_str", "rpc_call", "erlang", "list_to_pid")] ∧
+    (∀ e ∈ Gen.ERLANG_MOD_FNS, (erlangTarget e.1).isSome = true) := by
+  refine ⟨by decide, by decide, by decide, by decide, by decide⟩
+
+example : Gen.ERLANG_MOD_FNS.length = 6 := by decide
+
+/-! ## `Node::start` and the allocator over the node's life -/
+
+/-- `connect` and `rpc_call*` do not ask whether the node was started, so calls may be made before `Node::start`, with
+reply pids that carry the placeholder creation. `start` only changes the creation the allocator stamps on NEW pids
+(`set_creation`): the counters go on, so a call that allocates after `start` gets an `(id, serial)` no earlier call has —
+also when EPMD assigns the very creation the node had before (1). The earlier call keeps its key. -/
+theorem C17_reply_pids_fresh_across_start (a : Sh) (n : Nat) (σ τ : List Step) (c i j : Nat)
+    (hb : (reach a n (σ ++ .start c :: τ)).nalloc ≤ MAXP * U32)
+    (hi : ((reach a n σ).callers i).pc ≠ .start) (hj : ((reach a n σ).callers j).pc = .start)
+    (hj' : ((reach a n (σ ++ .start c :: τ)).callers j).pc ≠ .start)
+    (hoi : ((reach a n (σ ++ .start c :: τ)).callers i).out ≠ some .allocFail)
+    (hoj : ((reach a n (σ ++ .start c :: τ)).callers j).out ≠ some .allocFail) :
+    ((reach a n (σ ++ .start c :: τ)).callers i).key = ((reach a n σ).callers i).key ∧
+    (((reach a n (σ ++ .start c :: τ)).callers i).key.id, ((reach a n (σ ++ .start c :: τ)).callers i).key.serial) ≠
+      (((reach a n (σ ++ .start c :: τ)).callers j).key.id, ((reach a n (σ ++ .start c :: τ)).callers j).key.serial) := by
+  have hrun : reach a n (σ ++ .start c :: τ) = run (reach a n σ) (.start c :: τ) := by unfold reach; rw [run_append]
+  obtain ⟨hk, hi'⟩ := key_run (.start c :: τ) (reach a n σ) i hi
+  rw [← hrun] at hk hi'
+  refine ⟨hk, ?_⟩
+  have hij : i ≠ j := by intro h; subst h; exact hi hj
+  exact C17_keys_distinct a n _ i j hij hb hi' hj' hoi hoj
+
+/-- a node that was not started (creation 1): call 0; it times out; `start` with EPMD assigning creation 1 again; call 1
+gets `<2.0.1>`, not `<1.0.1>`; the late reply to call 0 arrives while call 1 waits and reaches nobody -/
+example : let s := reach (Sh.new 1) 0 (reqSteps 0 ++ [.timeout 0, .timeoutRemove 0, .finish 0, .start 1] ++ reqSteps 1 ++
+      [.rStart 0 ⟨0, ⟨1, 0, 1⟩, 2⟩, .rRemove 0])
+    (s.callers 0).key = ⟨1, 0, 1⟩ ∧ (s.callers 1).key = ⟨2, 0, 1⟩ ∧ (s.callers 1).pc = .waiting ∧ (s.callers 1).val = none ∧
+      s.recv 0 = .idle ∧ s.pending = [(⟨2, 0, 1⟩, 1)] := by decide
+/-- with creation 7 assigned: new pids carry it, the counters go on -/
+example : ((reach (Sh.new 1) 0 (reqSteps 0 ++ [.start 7] ++ reqSteps 1)).callers 1).key = ⟨2, 0, 7⟩ ∧
+    ((reach (Sh.new 1) 0 (reqSteps 0 ++ [.start 7] ++ reqSteps 1)).callers 0).key = ⟨1, 0, 1⟩ := by decide
+
+/-- Every use of the node's allocator and of its creation cell anywhere in node.rs, as the translator lists them, is a
+part of the model: the allocator is built once (`with_hidden`), `start` calls `set_creation` on it (it does not replace
+it: an assignment would be listed as `start:=new` / `=?`), and `allocate` is called by `spawn`, `send_remote` and
+`rpc_call_raw_with_timeout` only (`spawnProc`, `otherAlloc`, `begin`). `self.creation` is stored by `start` and read by
+`make_reference` / `creation()`; no call reads it. -/
+theorem C17_allocator_uses_as_in_source :
+    Gen.NODE_PID_ALLOCATOR_USES = ["struct::field", "with_hidden:let=new", "with_hidden:,init", "start:.set_creation()",
+      "spawn:.allocate()", "send_remote:.allocate()", "rpc_call_raw_with_timeout:.allocate()"] ∧
+    Gen.NODE_CREATION_USES = ["start:.store()", "make_reference:.load()", "creation:.load()"] ∧
+    (∀ u ∈ Gen.NODE_PID_ALLOCATOR_USES, (allocUseStep u).isSome = true) ∧
+    (∀ u ∈ Gen.NODE_CREATION_USES, (creationUseStep u).isSome = true) ∧
+    (∀ (s : St) (c : Nat), step s (.start c) = some { s with alloc := s.alloc.setCreation c }) := by
+  refine ⟨by decide, by decide, by decide, by decide, fun _ _ => rfl⟩
+
+example : allocUseStep "start:=new" = none ∧ allocUseStep "start:.set_creation()" = some "start" := by decide
 
 /-! ## the key text -/
 
